@@ -330,3 +330,13 @@ PROPS["C10"]["claim"] += (" BYTE LEVEL (Lemmas/EvalSpec): read_eval returns exac
 PROPS["C15"]["claim"] += (" BYTE-LEVEL ROUND TRIP (parse_reads_what_was_written): for every depfile of `target: prerequisite ...` entries with any "
     "spaces before the colon, gaps of spaces and backslash-newline continuations, blank space anywhere and path bytes including "
     "colons, parse returns exactly the listed targets and prerequisites in order.")
+
+PROPS["C14"]["claim"] += (" WHOLE-LOAD INVARIANT (Lemmas/LoadInv, at_most_one_producer): for EVERY file system content, main manifest name and "
+    "nesting of include/subninja, the graph a successful load returns has: an output listed by two build statements is listed by one "
+    "and the same statement; a file's recorded producer lists it and every listed output records that producer; no statement lists an "
+    "output twice (repeats are kept once); no two nodes share a name. Proved as an invariant of idFromCanonical / Graph::add_build "
+    "(dependents fold, the claim loop's exact effect on the file table, remove_duplicates) carried through Loader::path, evalPaths, "
+    "Loader::add_build, the statement loop and parseFile by induction on fuel and nesting depth.")
+PROPS["C06"]["claim"] += (" GRAPH HYPOTHESES DISCHARGED (loaded_graph_meets_hypotheses, Lemmas/LoadSched): GraphOK and DepsOK, the hypotheses "
+    "of the scheduler theorems, hold of the graph every invocation schedules on — load::read's result for any file system and log, including "
+    "the names interned while attaching the log; the monitor graphHyps still evaluates them on every real graph dump.")
